@@ -81,6 +81,26 @@ def check_property(pid, tier, seed):
             else:
                 failing.setdefault((u['key'], r['name']), []).append((u, r))
 
+    # ---- static analyses that produce obligations (C19 frame analysis)
+    static_rows = None
+    for (modname, fname) in getattr(registry, 'STATIC_PARTS', {}).get(pid, []):
+        obs_s, static_rows = getattr(importlib.import_module(modname), fname)(REPO)
+        functions['%s.%s' % (modname, fname)] = {'callables_analysed': len(static_rows)}
+        for o in obs_s:
+            if o['ok'] is None:
+                continue
+            n_ob += 1
+            backends['static-analysis'] = backends.get('static-analysis', 0) + 1
+            if o['ok']:
+                n_dis += 1
+                if len(samples) < 6:
+                    samples.append({'clause': o['name'], 'detail': o['detail'][:200], 'backend': 'static-analysis'})
+            else:
+                payload = {'property': pid, 'obligation': o['name'], 'kind': 'no-failing-input-found', 'function': o['name'],
+                           'goal': o['detail'], 'reason': 'static frame / AST analysis of the real source'}
+                path = chk.write_replay(pid, o['name'], payload)
+                violations.append((o['name'], path, ' no-failing-input-found'))
+
     # ---- triage of what was not discharged
     from pyvc.driver import find_counterexample
     from pyvc.engine import Engine
@@ -178,6 +198,7 @@ def check_property(pid, tier, seed):
         'not_discharged': triage[:40],
         'known_findings_reported': known_printed,
         'bounded': bounded_cov,
+        'static_analysis': static_rows,
         'explanation': registry.EXPLANATIONS.get(pid, '') if hasattr(registry, 'EXPLANATIONS') else '',
     }
     if bounded_cov:
